@@ -71,7 +71,7 @@ package bridgesync
 // ---- block processing (C07: all-or-nothing; C14: fail-stop) and reorg (C04, C14)
 
 //@ func (p *processor) ProcessBlock (p, ctx, block)
-//@   props C01 C07 C14
+//@   props C01 C04 C07 C14
 //@   requires p != nil && p.db != nil && p.log != nil && p.exitTree != nil && p.exitTree.Tree != nil && len(p.exitTree.zeroHashes) == 33
 //@   requires lastTx < heapTop
 //@   requires rhtOK(rhtHas(p.exitTree.Tree), rhtL(p.exitTree.Tree), rhtR(p.exitTree.Tree))
@@ -89,6 +89,13 @@ package bridgesync
 // per-event wiring (C01): the leaf appended for a bridge event sits at the event's deposit count and is the leaf value of
 // that event's fields (Bridge.Hash, proved), recorded for this block at the event's position, through this transaction
 //@   assert call:AddLeaf arg0 == p.exitTree && arg1 == tx && arg2 == block.Num && arg3 == event.Bridge.BlockPos && arg4.Index == event.Bridge.DepositCount
+// a reorg undoes a block by dropping the rows keyed by it (block row + ON DELETE CASCADE, C04) - so whatever processing a
+// block does must be confined to rows keyed by that block. The one statement that is not, is the DELETE a
+// RemoveLegacyToken event runs over legacy_token_migration (by token address: rows of *earlier* blocks): reaching it is
+// known finding F9 - when the block that carried the removal is reorged away, the migrations it deleted stay missing.
+//@   props C04
+//@   assert call:Exec:1 event.RemoveLegacyToken == nil
+//@   props C01 C04 C07 C14
 //@   ensures[deposit-count-gap-halts] (!old(p.halted) && leafCalls != old(leafCalls) && isErr(lastLeafErr, tree.ErrInvalidIndex)) ==> p.halted && isErr(result, sync.ErrInconsistentState)
 //@   ensures[committed-only-if-every-statement-succeeded] result == nil ==> stmtFail == old(stmtFail)
 //@   loop 0 invariant p.halted == old(p.halted) && !p.halted && p.log == old(p.log) && p.log != nil && p.exitTree == old(p.exitTree) && p.exitTree != nil && p.exitTree.Tree != nil && len(p.exitTree.zeroHashes) == 33
